@@ -55,9 +55,9 @@ ASSUMPTIONS = [
     "undirected networks only (the kernels write both triangles of the "
     "adjacency matrix; no directed semantics is documented)",
     "distance matrices are symmetric with zero diagonal and float32-exact "
-    "entries; on integer / dyadic matrices the tolerance bound is checked "
-    "strictly (<), on float32 euclidean distances with a relative slack of "
-    "1e-6 for the float32 subtraction",
+    "entries; the tolerance bound is checked as <= (the docstrings do not "
+    "say whether it is attained), on float32 euclidean distances with a "
+    "relative slack of 1e-6 for the float32 subtraction",
     "'p(l) conserved with inaccuracy eps' is formalised as: the sorted "
     "vector of link lengths moves by less than iterations*eps in the sup "
     "norm (each accepted swap replaces two lengths by two lengths within "
@@ -159,6 +159,44 @@ def check_object(rec, net, tag, n, directed, symmetric=None):
                       tag + "_degree_method_current",
                       "degree()=%s adjacency=%s" % (d, B.sum(axis=1)))
     return B.astype(np.int8)
+
+
+class NoTermination(Exception):
+    pass
+
+
+def call_bounded(rec, clause, budget, fn, *a, **k):
+    """rec.call with a DETERMINISTIC watchdog for the kernels that draw
+    random proposals until one is accepted: the draws of numpy.random.random
+    (geomodel kernel, sparse cross-link loop) and of the numerics module's
+    randint (cross-link kernels) are counted during the call; more than
+    ``budget`` draws fail ``clause + "_terminates"``.  The generators bound
+    swaps * E^2 and the budget is 50 x that (2 draws per proposal, 25 x the
+    worst-case expectation of a geometric waiting time with success
+    probability >= 1/E^2): a false alarm has probability < 1e-10.  The
+    random stream itself is untouched (the wrappers forward every call)."""
+    import numpy.random as rd
+    from pyunicorn.core._ext import numerics
+    count = [0]
+
+    def wrap(orig):
+        def f(*aa, **kk):
+            count[0] += 1
+            if count[0] > budget:
+                raise NoTermination(
+                    "more than %d random proposals drawn although the "
+                    "termination precondition holds" % budget)
+            return orig(*aa, **kk)
+        return f
+    o1, o2 = rd.random, numerics.randint
+    rd.random, numerics.randint = wrap(o1), wrap(o2)
+    try:
+        ok, v = rec.call(clause, fn, *a, allowed=(NoTermination,), **k)
+    finally:
+        rd.random, numerics.randint = o1, o2
+    if not ok and isinstance(v, NoTermination):
+        rec.fail(clause + "_terminates", str(v))
+    return ok, v
 
 
 def seeds_st(max_size=3):
@@ -505,10 +543,12 @@ def oracle_geomodel(case, rec):
                                    "call would not terminate")
         pbt.seed_library_rngs(sa, sb)
         # known-finding region KF-C17-3: network without links
-        ok, _ = rec.call(tag + "_call" + ("" if A0.any() else
-                                          "__edgeless_network"),
-                         getattr(net, "randomly_rewire_geomodel_" + model),
-                         distance_matrix=Darg, iterations=it, inaccuracy=eps)
+        E = int(np.triu(A0, 1).sum())
+        ok, _ = call_bounded(
+            rec, tag + "_call" + ("" if A0.any() else "__edgeless_network"),
+            50 * it * E * E + 1000,
+            getattr(net, "randomly_rewire_geomodel_" + model),
+            distance_matrix=Darg, iterations=it, inaccuracy=eps)
         if not ok:
             continue
         B = check_object(rec, net, tag, n, False)
@@ -535,12 +575,13 @@ def oracle_geomodel(case, rec):
             bound = bound * (1 + 1e-6)
 
         def within(l0, l1):
+            # "<=": the docstrings do not say whether the inaccuracy bound
+            # is attained (the kernel uses "<")
             if len(l0) != len(l1):
                 return False
             if len(l0) == 0 or it == 0:
                 return bool(np.array_equal(l0, l1))
-            d = np.abs(l0 - l1).max()
-            return bool(d < bound) if exact else bool(d <= bound)
+            return bool(np.abs(l0 - l1).max() <= bound)
         L0, L1 = _link_lengths(A0, Dd), _link_lengths(B, Dd)
         rec.check(within(L0, L1),
                   tag + "_sorted_link_lengths_within_iterations_times_eps",
@@ -644,7 +685,7 @@ def geo_cases(draw, n_max=10):
         D = np.zeros((n, n))
         D[np.triu_indices(n, 1)] = np.array(vals) / 8.0
         case["D"] = (D + D.T).tolist()
-    it = draw(st.sampled_from([1, 2, 3, 1, 0, 2, 3, 5, 8, 13, 21, 40]))
+    it = draw(st.sampled_from([1, 2, 1, 3, 1, 0, 2, 5, 8, 13, 21, 40]))
     # ---- termination precondition: an eligible swap exists
     A = _adj(g)
     D = _geo_D(case)
@@ -667,12 +708,14 @@ def geo_cases(draw, n_max=10):
     elif it == 0:
         eps = draw(st.sampled_from(EPS_CHOICES))
     else:
-        eps = draw(st.one_of(st.sampled_from(ok_eps[:3]),
+        # (a tight tolerance and few swaps make the length clauses sharp)
+        eps = draw(st.one_of(st.just(ok_eps[0]), st.sampled_from(ok_eps[:3]),
                              st.sampled_from(ok_eps)))
         # bound the expected number of proposals (E^2 / eligible per swap)
         el = eligible_count(needs, eps * margin)
         per = len(edges) ** 2 / float(max(1, el))
-        it = int(max(1, min(it, 40000 // max(1.0, per))))
+        it = int(max(1, min(it, 40000 // max(1.0, per),
+                            12000 // max(1, len(edges) ** 2))))
     case["eps"] = float(eps)
     case["iterations"] = int(it)
     case["seeds"] = draw(seeds_st(3))
@@ -772,10 +815,10 @@ def oracle_cross_rewire(case, rec):
         cd1 = np.array(net.cross_degree(a1, a2))
         cd2 = np.array(net.cross_degree(a2, a1))
         pbt.seed_library_rngs(sa, sb)
-        ok, out = rec.call("xrewire_call",
-                           InteractingNetworks.RandomlyRewireCrossLinks,
-                           network=net, node_list1=a1, node_list2=a2,
-                           swaps=swaps)
+        ok, out = call_bounded(
+            rec, "xrewire_call", 50 * nswaps * ncl * ncl + 1000,
+            InteractingNetworks.RandomlyRewireCrossLinks,
+            network=net, node_list1=a1, node_list2=a2, swaps=swaps)
         if not ok:
             continue
         rec.check(list(a1) == list(l1) and list(a2) == list(l2),
@@ -843,6 +886,9 @@ def cross_rewire_cases(draw):
             swaps = 1.0
     if ncl and swaps * ncl > 80:
         swaps = 80.0 / ncl
+    if ncl and swaps * ncl * ncl * ncl > 12000 and swaps * ncl >= 2:
+        # bound swaps * ncl^2 (worst-case expected number of proposals)
+        swaps = max(1, 12000 // (ncl * ncl)) / float(ncl)
     el = xrewire_eligible(C) if ncl else 0
     if el == 0:
         swaps = 0.0
@@ -896,7 +942,11 @@ def oracle_cross_set(case, rec):
         else:
             a1, a2 = list(l1), list(l2)
         pbt.seed_library_rngs(sa, sb)
-        ok, out = rec.call(tag + "_call" + suf, fn, net, a1, a2, **kw)
+        # filling k of M cells by rejection: at most M(1 + ln M) expected
+        # proposals
+        ok, out = call_bounded(rec, tag + "_call" + suf,
+                               50 * M * (2 + int(np.log(M))) + 1000,
+                               fn, net, a1, a2, **kw)
         if not ok:
             continue
         rec.check(list(a1) == list(l1) and list(a2) == list(l2),
